@@ -518,6 +518,7 @@ func (m *Mux) serveHTTP(w http.ResponseWriter, r *http.Request) error {
 	if herr != nil {
 		if !stream.sentHeader {
 			w.Header().Set("Content-Encoding", "identity") // try to avoid gzip
+			setOutgoingHeader(w.Header(), stream.header)   // headers set before the failure
 		}
 		m.encError(w, r, herr)
 	}
